@@ -1,0 +1,82 @@
+//go:build verif
+
+package points
+
+// Contracts for the deductive checker in /verif (comment-only; compiled only under the verif tag).
+//
+// Field elements F are bound to the integers ("ringint"): every obligation below is a polynomial identity
+// with integer coefficients and no hypotheses, so validity over Z implies validity in every commutative
+// ring, hence in every base field these generic point implementations are instantiated with.
+// cpA, cpB, cpB3 are the curve constants a, b, 3b supplied by the curve-parameter type C.
+
+//@ ghost func cpA() Int
+//@ ghost func cpB() Int
+//@ ghost func cpB3() Int
+
+// Renes-Costello-Batina 2015, Algorithm 1 (complete addition, general a), as polynomials.
+//@ pure func rcbAddX(X1 Int, Y1 Int, Z1 Int, X2 Int, Y2 Int, Z2 Int) Int = (X1*Y2 + X2*Y1) * (Y1*Y2 - cpA()*(X1*Z2 + X2*Z1) - cpB3()*Z1*Z2) - (Y1*Z2 + Y2*Z1) * (cpA()*X1*X2 + cpB3()*(X1*Z2 + X2*Z1) - cpA()*cpA()*Z1*Z2)
+//@ pure func rcbAddY(X1 Int, Y1 Int, Z1 Int, X2 Int, Y2 Int, Z2 Int) Int = (3*X1*X2 + cpA()*Z1*Z2) * (cpA()*X1*X2 + cpB3()*(X1*Z2 + X2*Z1) - cpA()*cpA()*Z1*Z2) + (Y1*Y2 + cpA()*(X1*Z2 + X2*Z1) + cpB3()*Z1*Z2) * (Y1*Y2 - cpA()*(X1*Z2 + X2*Z1) - cpB3()*Z1*Z2)
+//@ pure func rcbAddZ(X1 Int, Y1 Int, Z1 Int, X2 Int, Y2 Int, Z2 Int) Int = (Y1*Z2 + Y2*Z1) * (Y1*Y2 + cpA()*(X1*Z2 + X2*Z1) + cpB3()*Z1*Z2) + (X1*Y2 + X2*Y1) * (3*X1*X2 + cpA()*Z1*Z2)
+
+//@ func (*ShortWeierstrassPointImpl).Add
+//@   property C14
+//@   bind FP ringptr, F ringint, C curveparams
+//@   ensures p.X == rcbAddX(old(lhs.X), old(lhs.Y), old(lhs.Z), old(rhs.X), old(rhs.Y), old(rhs.Z))
+//@   ensures p.Y == rcbAddY(old(lhs.X), old(lhs.Y), old(lhs.Z), old(rhs.X), old(rhs.Y), old(rhs.Z))
+//@   ensures p.Z == rcbAddZ(old(lhs.X), old(lhs.Y), old(lhs.Z), old(rhs.X), old(rhs.Y), old(rhs.Z))
+
+//@ func (*ShortWeierstrassPointImpl).Neg
+//@   property C14
+//@   bind FP ringptr, F ringint, C curveparams
+//@   ensures p.X == old(v.X) && p.Y == -old(v.Y) && p.Z == old(v.Z)
+
+//@ func (*ShortWeierstrassPointImpl).Double
+//@   property C14
+//@   bind FP ringptr, F ringint, C curveparams
+//@   ensures p.X == rcbAddX(old(v.X), old(v.Y), old(v.Z), old(v.X), old(v.Y), old(v.Z))
+//@   ensures p.Y == rcbAddY(old(v.X), old(v.Y), old(v.Z), old(v.X), old(v.Y), old(v.Z))
+//@   ensures p.Z == 8 * old(v.Y) * old(v.Y) * old(v.Y) * old(v.Z)
+
+// Double agrees with Add(P, P): the X and Y polynomials are identical (contract above) and the Z polynomials
+// differ by a multiple of the curve equation  Y^2 Z - (X^3 + a X Z^2 + b Z^3), i.e. they are equal on the curve.
+//@ theory curveparams
+//@ axiom B3Def: cpB3() == 3 * cpB()
+//@ end
+//@ lemma DoubleZAgreesWithAddOnCurve: forall X, Y, Z Int :: rcbAddZ(X, Y, Z, X, Y, Z) - 8*Y*Y*Y*Z == 6*Y*(X*X*X + cpA()*X*Z*Z + cpB()*Z*Z*Z - Y*Y*Z)
+//@   property C14
+//@   uses curveparams
+
+//@ func (*ShortWeierstrassPointImpl).Sub
+//@   property C14
+//@   bind FP ringptr, F ringint, C curveparams
+//@   ensures p.X == rcbAddX(old(lhs.X), old(lhs.Y), old(lhs.Z), old(rhs.X), -old(rhs.Y), old(rhs.Z))
+//@   ensures p.Y == rcbAddY(old(lhs.X), old(lhs.Y), old(lhs.Z), old(rhs.X), -old(rhs.Y), old(rhs.Z))
+//@   ensures p.Z == rcbAddZ(old(lhs.X), old(lhs.Y), old(lhs.Z), old(rhs.X), -old(rhs.Y), old(rhs.Z))
+
+//@ func (*ShortWeierstrassPointImpl).Equal
+//@   property C14
+//@   bind FP ringptr, F ringint, C curveparams
+//@   ensures (result == 1) == (p.X * rhs.Z == rhs.X * p.Z && p.Y * rhs.Z == rhs.Y * p.Z)
+//@   ensures result == 0 || result == 1
+
+//@ func (*ShortWeierstrassPointImpl).IsZero
+//@   property C14
+//@   bind FP ringptr, F ringint, C curveparams
+//@   ensures (result == 1) == (p.Z == 0)
+//@   ensures result == 0 || result == 1
+
+//@ func (*ShortWeierstrassPointImpl).SetZero
+//@   property C14
+//@   bind FP ringptr, F ringint, C curveparams
+//@   ensures p.X == 0 && p.Y == 1 && p.Z == 0
+
+//@ func (*ShortWeierstrassPointImpl).Set
+//@   property C14
+//@   bind FP ringptr, F ringint, C curveparams
+//@   ensures p.X == old(v.X) && p.Y == old(v.Y) && p.Z == old(v.Z)
+
+//@ func (*ShortWeierstrassPointImpl).Select
+//@   property C14
+//@   bind FP ringptr, F ringint, C curveparams
+//@   ensures choice == 0 ==> p.X == old(z.X) && p.Y == old(z.Y) && p.Z == old(z.Z)
+//@   ensures choice == 1 ==> p.X == old(nz.X) && p.Y == old(nz.Y) && p.Z == old(nz.Z)
